@@ -246,6 +246,7 @@ fn run_slim_fat(rec: &Recorder, check: &'static str) {
     }
     // thorough: every zone of tzdata.zi compiled slim and fat with zic
     if rec.tier() == Tier::Thorough {
+        let data_differs = std::sync::atomic::AtomicU64::new(0);
         let base = format!("{}/.work/c18-zic-{}", VERIF_DIR, std::process::id());
         let ok = |mode: &str| std::process::Command::new("zic").args(["-b", mode, "-d", &format!("{base}/{mode}"), &format!("{}/tzdata.zi", zones::ZONEINFO)]).status().map(|s| s.success()).unwrap_or(false);
         if ok("slim") && ok("fat") {
@@ -267,12 +268,23 @@ fn run_slim_fat(rec: &Recorder, check: &'static str) {
                     probes.retain(|&p| p >= start);
                     for p in probes {
                         let ts = Timestamp::from_nanosecond(p).unwrap();
+                        // zic itself does not always emit the same rules in both modes (e.g.
+                        // Asia/Gaza 2073: the slim output drops the Ramadan pair, confirmed with
+                        // zdump). "The same zone rules" holds only where an independent reading of
+                        // the two files agrees.
+                        let sec = p.div_euclid(NS_PER_SEC) as i64;
+                        let (qa, qb) = (rs.lookup(sec), rf.lookup(sec));
+                        if qa != qb {
+                            data_differs.fetch_add(1, std::sync::atomic::Ordering::Relaxed);
+                            continue;
+                        }
                         let (ia, ib) = (a.to_offset_info(ts), b.to_offset_info(ts));
                         ensure!(ia.offset() == ib.offset() && ia.dst() == ib.dst() && ia.abbreviation() == ib.abbreviation(), "slim-fat-offset-info", "{name} at {ts}: slim ({}, {}) fat ({}, {})", ia.offset(), ia.abbreviation(), ib.offset(), ib.abbreviation());
                     }
                     Ok(())
                 });
             }
+            rec.add_class("slim-fat:probes-skipped-zic-output-differs", data_differs.load(std::sync::atomic::Ordering::Relaxed));
         } else {
             rec.add_class("slim-fat:zic-unavailable", 1);
         }
